@@ -39,13 +39,21 @@ def info(p):
     return {'nontrivial': nt, 'labels': labels}
 
 
+@st.composite
+def src_case(draw, opts, **kw):
+    case = draw(H.pipeline_case(opts, **kw))
+    # how the plain source delivers: from the scheduler's trampoline, or synchronously inside subscribe()
+    case['src'] = draw(st.sampled_from(['from', 'from', 'create', 'replay']))
+    return case
+
+
 def check_store(case):
     monitor.install()
     p, items = case['p'], case['items']
     c02.in_domain(p, items)
     monitor.REC.reset()
-    r = drive.store(items, A.build_pipeline(p, A.Env()))
-    verdict('with_memory_store', pipeline=p, items=items)
+    r = drive.store(items, A.build_pipeline(p, A.Env()), src=case.get('src', 'from'))
+    verdict('with_memory_store', pipeline=p, items=items, src=case.get('src', 'from'))
     H.require_clean(r, 'with_memory_store', pipeline=p, items=items)
     return info(p)
 
@@ -54,8 +62,8 @@ def check_multiplex(case):
     monitor.install()
     p, items = case['p'], case['items']
     monitor.REC.reset()
-    r = drive.multiplex(items, A.build_pipeline(p, A.Env()))
-    verdict('multiplex', pipeline=p, items=items)
+    r = drive.multiplex(items, A.build_pipeline(p, A.Env()), src=case.get('src', 'from'))
+    verdict('multiplex', pipeline=p, items=items, src=case.get('src', 'from'))
     H.require_clean(r, 'multiplex', pipeline=p, items=items)
     i = info(p)
     i['nontrivial'] = len(monitor.REC.boundaries) >= 3 and len(items) >= 1
@@ -163,11 +171,11 @@ def roll_enum(tier):
 
 def subs(tier):
     return [
-        Sub('store', check_store, gen=lambda: H.pipeline_case(OPTS, max_items=20, min_len=1), examples={'quick': 2500, 'thorough': 300000},
+        Sub('store', check_store, gen=lambda: src_case(OPTS, max_items=20, min_len=1), examples={'quick': 2500, 'thorough': 300000},
             doc='rx.from_(items).pipe(with_memory_store(P)) with the monitor on every MuxObservable boundary'),
         Sub('raw', check_raw, gen=c02.raw_case, examples={'quick': 1000, 'thorough': 100000},
             doc='well-formed raw mux histories (slot re-use, sparse indices, interleaving) through P'),
-        Sub('multiplex', check_multiplex, gen=lambda: H.pipeline_case(STATELESS, max_items=12, min_len=1), examples={'quick': 500, 'thorough': 40000},
+        Sub('multiplex', check_multiplex, gen=lambda: src_case(STATELESS, max_items=12, min_len=1), examples={'quick': 500, 'thorough': 40000},
             doc='rs.ops.multiplex(P) for stateless P (incl. merge/zip tees)'),
         Sub('errors', check_errors, gen=error_case, examples={'quick': 800, 'thorough': 60000},
             doc='a raising map + ignore / error.map / router inside group_by/roll/split/time_split nestings: lifecycle stays well-formed'),
